@@ -227,6 +227,14 @@ impl<'a> Fold<Diagnostic> for TypeResolver<'a> {
         self.require_known_type(&node.type_name, "Variable type");
         Ok(node)
     }
+
+    fn fold_function_declaration(
+        &mut self,
+        node: FunctionDeclaration,
+    ) -> Result<FunctionDeclaration, Diagnostic> {
+        self.require_known_type(&node.return_type, "Function result type");
+        node.recurse_fold(self)
+    }
 }
 
 impl TypeResolver<'_> {
